@@ -176,6 +176,33 @@ def run_apalache_stamp():
         return r
 
 
+def run_tlaps_stamp():
+    """Extra (no verdict depends on it): TLAPS proves the arithmetic lemmas of spec/tlaps/StampLemmas.tla for every MAXSTAMP."""
+    f = os.path.join(SPEC, "tlaps", "StampLemmas.tla")
+    d = os.path.join(WORK, "mc", sha([f]))
+    os.makedirs(d, exist_ok=True)
+    res = os.path.join(d, "tlaps_StampLemmas.json")
+    with Lock("tlaps"):
+        if os.path.exists(res):
+            r = json.load(open(res))
+            r["cached"] = True
+            return r
+        tmp = os.path.join(WORK, "tlaps-%d" % os.getpid())
+        os.makedirs(tmp, exist_ok=True)
+        shutil.copy(f, tmp)
+        t0 = time.time()
+        try:
+            rc, out = sh(["tlapm", "--threads", "4", "StampLemmas.tla"], cwd=tmp, timeout=600)
+        except subprocess.TimeoutExpired:
+            rc, out = -1, "timeout"
+        shutil.rmtree(tmp, ignore_errors=True)
+        m = re.search(r"All (\d+) obligations? proved", out)
+        r = {"obligations": int(m.group(1)) if m else 0, "discharged": int(m.group(1)) if m else 0, "ok": bool(m) and rc == 0,
+             "checker_cmd": "tlapm --threads 4 spec/tlaps/StampLemmas.tla", "cached": False, "wall_s": round(time.time() - t0, 1), "at": time.strftime("%Y-%m-%dT%H:%M:%S")}
+        json.dump(r, open(res, "w"), indent=1)
+        return r
+
+
 def harness_bin(profile="debug", alt=""):
     return os.path.join(WORK, "target" + alt, profile, "itverif")
 
